@@ -361,11 +361,16 @@ class SimTransport(asyncio.Transport):
         self.held_bytes = 0
         self.out.fin_pending = True
         self.out.pump()
+        self._had_unsent_at_close = bool(self.out.sendbuf)
         # the peer's window may have opened because we dropped held data
         if self.inp.sendbuf:
             self.inp.pump()
 
     def abort(self):
+        if self.state == CLOSED and getattr(self, "_closed_by_flush", False) and self.closed_at is not None:
+            # CPython's selector transport: a close() with unsent data finishes through the write path, which leaves
+            # _conn_lost at 0 and the loop reference cleared; abort() on such a transport is no no-op, it raises
+            raise AttributeError("'NoneType' object has no attribute 'call_soon'")
         if self.state == CLOSED:
             return
         self.state = CLOSED
@@ -386,6 +391,8 @@ class SimTransport(asyncio.Transport):
                 self.protocol.resume_writing()
         if self.state == CLOSING and not self.out.sendbuf and self.out.fin_sent:
             self.state = CLOSED
+            if getattr(self, "_had_unsent_at_close", False):
+                self._closed_by_flush = True
             self._schedule_lost(None)
 
     def _schedule_lost(self, exc):
